@@ -120,6 +120,39 @@ def concretize (inst : Ty → Ty) (l : List Ty) : List Ty :=
 def availTypes (types relevant : List Ty) : List Ty :=
   types.filter fun t => !(memBeq t relevant)
 
+/-- which `find_irrelevant_type` is modelled: the code as found (`asIs`), or with the repair of
+    `fixes/C09-find-irrelevant-type.diff` (`repaired`: the top type and the constructors of
+    generic subclasses of the query are not candidates) -/
+inductive Variant | asIs | repaired
+deriving Repr, DecidableEq
+
+/-- the variant `/repo` implements (the harness checks this against the tree) -/
+def Variant.current : Variant := .asIs
+
+/-- `available_types` of the repaired code: `t not in relevant_types and t != any and
+    not (t.is_type_constructor() and t.is_subtype(etype))`, left to right -/
+def availRepaired (anyT etype : Ty) (relevant : List Ty) : List Ty → FR (List Ty)
+  | [] => .ok []
+  | t :: ts =>
+    if memBeq t relevant || beq t anyT then availRepaired anyT etype relevant ts
+    else if t.isTCon then
+      match isSubtype t etype with
+      | .yes => availRepaired anyT etype relevant ts
+      | .no => (match availRepaired anyT etype relevant ts with
+          | .ok r => .ok (t :: r)
+          | e => e)
+      | .typeError => .typeError
+      | .attrError => .attrError
+      | .fuel => .fuel
+    else match availRepaired anyT etype relevant ts with
+      | .ok r => .ok (t :: r)
+      | e => e
+
+def availTypesV (v : Variant) (anyT etype : Ty) (types relevant : List Ty) : FR (List Ty) :=
+  match v with
+  | .asIs => .ok (availTypes types relevant)
+  | .repaired => availRepaired anyT etype relevant types
+
 /-- the target the answer must be irrelevant to: the type, or for a type variable with a
     bound other than the top type, that bound (`etype = etype.bound`) -/
 def irrTarget (anyT : Ty) (etype : Ty) : Ty :=
